@@ -124,6 +124,8 @@ class Engine(object):
         self.shapes = shapes if shapes is not None else C.SHAPES
         self.u = Universe()
         self.obligations = []
+        self._closed = set()
+        self.global_axioms = []
         self.assumptions_used = set()
         self.trusted_used = set()
         self.inlined = set()
@@ -386,10 +388,12 @@ class Engine(object):
     def _ref_truthy(self, sv, st):
         u = self.u
         r = self.as_ref(sv)
-        if sv.cls in ("list", "tuple"):
-            return st.heap["$len"][r] > 0 if st is not None else u.fresh_bool("t")
+        if sv.cls == "tuple":
+            return self.tuple_len_f()(r) > 0
+        if sv.cls == "list":
+            return self.heap_array(st, "$len")[r] > 0 if st is not None else u.fresh_bool("t")
         if sv.cls in ("dict", "set"):
-            return st.heap["$len"][r] > 0 if st is not None else u.fresh_bool("t")
+            return self.heap_array(st, "$len")[r] > 0 if st is not None else u.fresh_bool("t")
         if sv.cls is not None and sv.cls not in self.dunder_truthy:
             subs = self.src.subclasses(sv.cls) if sv.cls in self.src.classes or sv.cls in self.src.virtual else []
             if not any(s in self.dunder_truthy for s in subs):
@@ -397,10 +401,12 @@ class Engine(object):
         # class unknown or defines __len__/__bool__
         if sv.cls is None and st is not None:
             t = u.typeof(r)
-            cont = z3.Or([t == u.class_id(c) for c in ("list", "tuple", "dict", "set")])
+            cont = z3.Or([t == u.class_id(c) for c in ("list", "dict", "set")])
+            istup = t == u.class_id("tuple")
             plain = z3.And([t != u.class_id(c) for c in sorted(self.dunder_truthy)] or [z3.BoolVal(True)])
             opaque = u.uf("obj_truthy", u.Int, u.Bool)(r)
-            return z3.If(cont, st.heap["$len"][r] > 0, z3.If(plain, True, opaque))
+            return z3.If(istup, self.tuple_len_f()(r) > 0,
+                         z3.If(cont, self.heap_array(st, "$len")[r] > 0, z3.If(plain, True, opaque)))
         return u.uf("obj_truthy", u.Int, u.Bool)(r)
 
     def _fold_cases(self, sv, f, sort):
@@ -450,11 +456,10 @@ class Engine(object):
     def container_eq(self, a, b, st):
         u = self.u
         if a.cls in ("list", "tuple") and b.cls == a.cls:
-            ra, rb = self.as_ref(a), self.as_ref(b)
             k = u.fresh_int("k")
-            la, lb = st.heap["$len"][ra], st.heap["$len"][rb]
-            return z3.And(la == lb, z3.ForAll([k], z3.Implies(z3.And(0 <= k, k < la),
-                          st.heap["$at"][ra][k] == st.heap["$at"][rb][k])))
+            la, lb = self.seq_len(st, a), self.seq_len(st, b)
+            ea, eb = self.seq_elems(st, a), self.seq_elems(st, b)
+            return z3.And(la == lb, z3.ForAll([k], z3.Implies(z3.And(0 <= k, k < la), ea(k) == eb(k))))
         raise Undecided("structural == on %s/%s" % (a.cls, b.cls))
 
     def _enum_eq_str(self, e, s):
@@ -482,7 +487,26 @@ class Engine(object):
         u = self.u
         sort = {"$len": u.LenSort, "$at": u.AtSort, "$has": u.HasSort, "$val": u.DValSort,
                 "$keys": u.FieldSort}.get(field, u.FieldSort)
-        return z3.Const("H0_%s" % field.replace("$", "_"), sort)
+        arr = z3.Const("H0_%s" % field.replace("$", "_"), sort)
+        if field not in self._closed:
+            # the entry heap is closed: whatever it stores was allocated before entry
+            self._closed.add(field)
+            a0 = z3.Int("alloc0")
+            r = z3.Int("r!c")
+            k = z3.Int("k!c")
+            x = z3.Const("x!c", u.Val)
+            if field == "$at":
+                v = arr[r][k]
+                self.global_axioms.append(z3.ForAll([r, k], z3.Implies(u.is_R(v), u.r(v) < a0), patterns=[arr[r][k]]))
+            elif field == "$val":
+                v = arr[r][x]
+                self.global_axioms.append(z3.ForAll([r, x], z3.Implies(u.is_R(v), u.r(v) < a0), patterns=[arr[r][x]]))
+            elif field in ("$len", "$has"):
+                pass
+            else:
+                v = arr[r]
+                self.global_axioms.append(z3.ForAll([r], z3.Implies(u.is_R(v), u.r(v) < a0), patterns=[arr[r]]))
+        return arr
 
     def read_field(self, st, obj, field, cls_hint=None):
         u = self.u
@@ -524,6 +548,13 @@ class Engine(object):
         """Allocate a list/tuple object with the given SV items."""
         sv = self.alloc(st, cls, elem)
         r = self.as_ref(sv)
+        if cls == "tuple":
+            st.assume(self.tuple_len_f()(r) == len(items))
+            for k, it in enumerate(items):
+                if it.z is None:
+                    raise Undecided("python-side value inside a tuple")
+                st.assume(self.tuple_item_f()(r, z3.IntVal(k)) == it.z)
+            return sv
         st.heap["$len"] = z3.Store(self.heap_array(st, "$len"), r, z3.IntVal(len(items)))
         elems = self.heap_array(st, "$at")[r]
         for k, it in enumerate(items):
@@ -539,17 +570,38 @@ class Engine(object):
         r = self.as_ref(sv)
         n = length if length is not None else self.u.fresh_int("len")
         st.assume(n >= 0)
+        if cls == "tuple":
+            st.assume(self.tuple_len_f()(r) == n)
+            return sv
         st.heap["$len"] = z3.Store(self.heap_array(st, "$len"), r, n)
         st.heap["$at"] = z3.Store(self.heap_array(st, "$at"), r,
                                   self.u.fresh("elems", self.u.ElemsSort))
         return sv
 
+    # tuples are immutable: their content is heap-independent (no frame reasoning needed)
+    def tuple_len_f(self):
+        return self.u.uf("tuple_len", self.u.Int, self.u.Int)
+
+    def tuple_item_f(self):
+        return self.u.uf("tuple_item", self.u.Int, self.u.Int, self.u.Val)
+
     def seq_len(self, st, seq):
+        if seq.cls == "tuple":
+            return self.tuple_len_f()(self.as_ref(seq))
         return self.heap_array(st, "$len")[self.as_ref(seq)]
+
+    def seq_elems(self, st, seq):
+        """z3 function/array  index -> Val  for the current content of a sequence."""
+        r = self.as_ref(seq)
+        if seq.cls == "tuple":
+            f = self.tuple_item_f()
+            return lambda k: f(r, k)
+        arr = self.heap_array(st, "$at")[r]
+        return lambda k: arr[k]
 
     def seq_get(self, st, seq, zidx):
         u = self.u
-        z = self.heap_array(st, "$at")[self.as_ref(seq)][zidx]
+        z = self.seq_elems(st, seq)(zidx)
         sv = self.typed(z, seq.elem)
         if seq.elem and seq.elem != "any":
             st.assume(z3.Implies(z3.And(0 <= zidx, zidx < self.seq_len(st, seq)),
@@ -584,8 +636,21 @@ class Engine(object):
         while k < n and all(_same(states[0].pc[k], s.pc[k]) for s in states[1:]):
             k += 1
         prefix = list(states[0].pc[:k])
-        tails = [z3.And(s.pc[k:]) if len(s.pc) > k else z3.BoolVal(True) for s in states]
+        tails = []
+        for s in states:
+            tl = s.pc[k:]
+            if not tl:
+                tails.append(z3.BoolVal(True))
+            elif self.in_spec or (len(tl) == 1 and z3.is_const(tl[0])):
+                # (contract clauses: no auxiliary names, their definitions could be lost inside quantifiers)
+                tails.append(z3.And(tl) if len(tl) > 1 else tl[0])
+            else:
+                # name the path condition once; Ifs and the disjunction use the name
+                nm = self.u.fresh_bool("path")
+                prefix.append(nm == z3.And(tl))
+                tails.append(nm)
         out = State({}, {}, {}, None, prefix + [z3.Or(tails)])
+        out_tails = tails
 
         def ite(vals):
             res = vals[-1]
@@ -626,6 +691,7 @@ class Engine(object):
                 if not any(_same(r, x) for x in seen):
                     seen.append(r)
         out.fresh_refs = seen
+        self._last_tails = tails
         return out
 
     def merge_values(self, vals, tails):
